@@ -69,6 +69,30 @@ DESC = {
                 "the in-place entry point (directly or through Vec::deserialize_in_place) and a previous value that has qualifiers"),
     "r2c16-4": ("C16", "visit_str runs a fail-fast T::from_str on the text between 'pkg:' and the first '/', without trimming the leading slashes the parser ignores.",
                 "a T whose FromStr rejects the empty string (Purl) and the legal pkg:/... or pkg://... form"),
+    "r3c12-1": ("C12", "build() merges 'drop empty qualifiers' and 'find and normalise the checksum' into one retain pass; the index counts visited, not kept, elements.",
+                "the builder path with an empty-valued qualifier whose key sorts before 'checksum' (with_qualifier(\"arch\", \"\")): normalisation is silently skipped, or build() fails if another qualifier follows"),
+    "r3c12-2": ("C12", "Qualifiers::try_insert_typed stores the converted value with entry(KEY).or_insert(value) instead of insert.",
+                "an order of two calls: a checksum is already present (with_qualifier(\"checksum\", ..), an earlier typed set, or into_builder() of a parsed PURL) when try_with_typed_qualifier sets a new one - the new one is silently ignored"),
+    "r3c12-3": ("C12", "Entries are rendered to 'algorithm:hex' first and the rendered strings are sorted.",
+                "one algorithm name is a proper prefix of another and the longer one continues with a character below ':' (digit, '-', '.', space)"),
+    "r3c12-4": ("C12", "Checksum::try_from(&str) refuses an entry whose algorithm name is empty; the writer still produces it.",
+                "an entry whose algorithm is the empty string"),
+    "r3c14-1": ("C14", "The type substring is percent-decoded before validation and conversion.",
+                "a %XX escape in the type position that decodes to legal type characters (pkg:%74ype/name)"),
+    "r3c14-2": ("C14", "T::from_str is still called once at the same place, but its '?' moved to the end, after version, namespace and name are decoded.",
+                "a failing conversion combined with a malformed escape in the name, version or namespace; either alone behaves as before"),
+    "r3c14-3": ("C14", "The checksum's position is looked up before the empty qualifiers are removed and used afterwards.",
+                "an empty-valued qualifier sorting at or before 'checksum', together with a checksum, at the moment the hook returns"),
+    "r3c14-4": ("C14", "build() normalises namespace and subpath after the hook (drops empty / '.' / '..' segments) 'for round-trip stability'.",
+                "a hook or builder that writes a namespace with a leading, trailing or doubled '/', or a subpath with such a slash or a dot segment"),
+    "r3c16-1": ("C16", "Deserialize calls deserialize_any instead of deserialize_str.",
+                "a data format that is not self-describing (bincode / postcard style) and therefore refuses deserialize_any; JSON and serde's value deserializers see no difference"),
+    "r3c16-2": ("C16", "A scheme pre-check in visit_str slices the input at byte 4 (&v[..4]).",
+                "a string of at least 4 bytes in which a multi-byte character straddles byte 4: it panics instead of being refused"),
+    "r3c16-3": ("C16", "lowercase_in_place rewritten with find(is_uppercase): the first upper-case character decides the mode, so name lower-casing is no longer idempotent.",
+                "Purl with a nuget name (or a pypi name without '-', '_', '.') that has an ASCII upper-case letter before a non-ASCII one: the value changes on a JSON round trip"),
+    "r3c16-4": ("C16", "The visitor parses as GenericPurl<String> and then only resolves the type, so PackageType::finish never runs when deserialising.",
+                "Purl with a non-canonical or type-invalid input string (maven without namespace, unnormalised nuget / pypi names)"),
 }
 
 
@@ -86,6 +110,7 @@ def main():
     results = table(os.path.join(ROOT, "RESULTS.tsv"))
     first = table(os.path.join(ROOT, "RESULTS-first-version.tsv"))
     before2 = table(os.path.join(ROOT, "RESULTS-round2-before-strengthening.tsv"))
+    before3 = table(os.path.join(ROOT, "RESULTS-round3-before-strengthening.tsv"))
     for name, (prop, what, needs) in sorted(DESC.items()):
         d = os.path.join(ROOT, name)
         if not os.path.isdir(d):
@@ -94,10 +119,11 @@ def main():
         r = results.get(name, {})
         f = first.get(name, {})
         b2 = before2.get(name, {})
+        b3 = before3.get(name, {})
         meta = {
             "id": name,
             "property_broken": prop,
-            "origin": f"fresh sub-agent '{name.split('-')[0]}', change #{name.split('-')[1]}; it was given only the text of {prop} and a scratch worktree of /repo, nothing from /verif" + ("; round 2: it was also told which ideas round 1 had produced and asked for different ones" if name.startswith("r2") else ""),
+            "origin": f"fresh sub-agent '{name.split('-')[0]}', change #{name.split('-')[1]}; it was given only the text of {prop} and a scratch worktree of /repo, nothing from /verif" + ("; round 2: it was also told which ideas round 1 had produced and asked for different ones" if name.startswith("r2") else "") + ("; round 3: it was also told which ideas rounds 1 and 2 had produced, and pointed at rarely exercised public API paths, call order, thresholds and continued use after a failure" if name.startswith("r3") else ""),
             "change": what,
             "needs_in_order_to_manifest": needs,
             "files": {"patch": "patch.diff", "demonstration": "demo.rs (drop into purl/tests/)", "author_notes": "notes.md"},
@@ -125,6 +151,11 @@ def main():
                 "verdict": r.get("verdict"),
             },
         }
+        if b3:
+            meta["checks_before_they_were_strengthened_for_round_3"] = {
+                "note": "result with the checks at commit 294ea8e (the version when round 3 of seeded changes was commissioned)",
+                "C12": b3.get("C12"), "C14": b3.get("C14"), "C16": b3.get("C16"), "verdict": b3.get("verdict"),
+            }
         if b2:
             meta["checks_before_they_were_strengthened_for_round_2"] = {
                 "note": "result with the checks at commit d6c5350 (after round 1, before round 2 of seeded changes)",
